@@ -14,6 +14,9 @@ def main():
     from ..pyvc.driver import Program
     nm = common.load_nmfu()
     leaf_proofs.run(rep, "C17", ["EndMatch", "DirectMatch", "CaseDirectMatch"], nm, Program(nm, common.repo_source()))
+    # `end` is refused without EOF support and is an EndMatch with it, for all flag values (pyvc on ParseCtx._parse_match_expr)
+    from . import c17_proofs
+    c17_proofs.run(rep, "C17")
     # data patterns never match End (regexes incl. wildcard / inverted sets; literal matches list characters only)
     from ..rtc import run as rrun, regex_contract
     ps = gen.regex_programs(common.tier() == "thorough", common.seed())
